@@ -587,6 +587,7 @@ structure Seg where
   idx : Byte
   next : Byte
   data : List Byte
+deriving Repr, DecidableEq
 
 /-- `<PACKT><SRCCN>src</SRCCN><DESCN>dst</DESCN><DATAS>` as bytes -/
 def asciiBytes (t : Text) : List Byte := t.map fun c => UInt8.ofNat c.toNat
